@@ -4,8 +4,9 @@ A translator stage (harness/translate*.py) is fail-closed: a statement form outs
 families of harmless refactorings account for most such aborts without touching behaviour: a local alias for a
 repeated attribute access, a private helper extracted from a method, and an `if ...: continue` guard in place of a
 filter.  When (and only when) a stage raises Untranslatable on the source as written, runner.check_kernels calls it
-again on the source with these three rewritings undone; the tie lemmas then have to close on what comes out, exactly
-as for the first reading.  The unchanged tree never takes this path.
+again on the source with such rewritings undone, for the sets of rewritings listed in READINGS below, stopping at
+the first set on which the stage translates AND its
+tie lemmas close, exactly as they must for the text as written.  The unchanged tree never takes this path.
 
 The rewritings (each one is an equivalence of Python programs under the stated side conditions, which are checked
 syntactically; anything that does not meet them is left alone):
@@ -22,6 +23,16 @@ syntactically; anything that does not meet them is left alone):
     the block are replaced by e and the assignment is dropped.  (Attribute reads are pure for the classes these
     translators read; that is already part of their stated reading.)
  C. `if c: continue` as a statement of a `for` body is replaced by wrapping the statements after it in `if not c:`.
+ D. private module-level constants.  `_NAME = <literal>` (number, string, bool, None, or a tuple of such) bound exactly
+    once at module level and never stored to elsewhere: its uses inside functions (parameter defaults included) are
+    replaced by the literal.
+ E. `x = a if c else b` as a statement is replaced by `if c: x = a` / `else: x = b`.
+ F. named intermediates.  `x = e` where e is built from names, attribute chains, constants, arithmetic, comparisons,
+    subscripts, conditional expressions and calls of max / min / len / int / bool / abs / exact_log2 / ceil_log2 /
+    isinstance only, x is stored nowhere else, is loaded exactly once in the whole function, and that load is in the
+    statement immediately following (not under a lambda, comprehension or loop header): e is put in its place.
+    (Evaluation moves past the sub-expressions of the next statement that precede the use; for expressions of this
+    shape that can only change which of two exceptions is reported when both would be raised.)
 """
 import ast, copy
 
@@ -242,9 +253,145 @@ def _continue_guards(stmts, in_for):
     return out
 
 
-def normalize(tree):
+# ------------------------------------------------------------------ D. module constants
+
+def _literal(e):
+    if isinstance(e, ast.Constant):
+        return True
+    if isinstance(e, ast.UnaryOp) and isinstance(e.op, ast.USub) and isinstance(e.operand, ast.Constant):
+        return True
+    if isinstance(e, ast.Tuple):
+        return all(_literal(x) for x in e.elts)
+    return False
+
+
+def _module_constants(tree):
+    consts = {}
+    for st in tree.body:
+        if isinstance(st, ast.Assign) and len(st.targets) == 1 and isinstance(st.targets[0], ast.Name) \
+                and st.targets[0].id.startswith("_") and not st.targets[0].id.startswith("__") and _literal(st.value):
+            consts[st.targets[0].id] = st.value
+    stored = {}
+    for n in ast.walk(tree):
+        if isinstance(n, ast.Name) and isinstance(n.ctx, (ast.Store, ast.Del)):
+            stored[n.id] = stored.get(n.id, 0) + 1
+        elif isinstance(n, ast.arg):
+            stored[n.arg] = stored.get(n.arg, 0) + 2
+        elif isinstance(n, (ast.Global, ast.Nonlocal)):
+            for x in n.names:
+                stored[x] = stored.get(x, 0) + 2
+    return {k: v for k, v in consts.items() if stored.get(k, 0) == 1}
+
+
+def _inline_constants(tree, consts):
+    if not consts:
+        return tree
+    sub = _Subst(consts)
+    for st in tree.body:
+        if isinstance(st, (ast.FunctionDef, ast.ClassDef)):
+            sub.visit(st)
+    tree.body = [st for st in tree.body if not (isinstance(st, ast.Assign) and len(st.targets) == 1
+                                                and isinstance(st.targets[0], ast.Name) and st.targets[0].id in consts)]
+    return tree
+
+
+# ------------------------------------------------------------------ E. conditional-expression assignments
+
+class _IfExpAssign(ast.NodeTransformer):
+    def visit_Assign(self, n):
+        if len(n.targets) == 1 and isinstance(n.targets[0], ast.Name) and isinstance(n.value, ast.IfExp):
+            t = n.targets[0].id
+            return ast.If(test=n.value.test,
+                          body=[ast.Assign(targets=[ast.Name(id=t, ctx=ast.Store())], value=n.value.body)],
+                          orelse=[ast.Assign(targets=[ast.Name(id=t, ctx=ast.Store())], value=n.value.orelse)])
+        return n
+
+
+# ------------------------------------------------------------------ F. named intermediates
+
+_PURE_CALLS = {"max", "min", "len", "int", "bool", "abs", "exact_log2", "ceil_log2", "isinstance"}
+
+
+def _pure_expr(e):
+    for n in ast.walk(e):
+        if isinstance(n, ast.Call):
+            if not (isinstance(n.func, ast.Name) and n.func.id in _PURE_CALLS) or n.keywords \
+                    or any(isinstance(a, ast.Starred) for a in n.args):
+                return False
+        elif not isinstance(n, (ast.Name, ast.Attribute, ast.Constant, ast.BinOp, ast.UnaryOp, ast.BoolOp, ast.Compare,
+                                ast.IfExp, ast.Subscript, ast.Tuple, ast.Load, ast.operator, ast.unaryop, ast.boolop,
+                                ast.cmpop, ast.expr_context)):
+            return False
+    return True
+
+
+def _inline_intermediates(fn):
+    stored, loads = {}, {}
+    for n in ast.walk(fn):
+        if isinstance(n, ast.Name):
+            d = stored if isinstance(n.ctx, (ast.Store, ast.Del)) else loads
+            d[n.id] = d.get(n.id, 0) + 1
+    params = {a.arg for a in fn.args.args + fn.args.kwonlyargs + fn.args.posonlyargs}
+
+    def use_site_ok(st, x):
+        """the single load of x in st is not under a lambda / comprehension, nor in a compound statement's body"""
+        heads = [st]
+        if isinstance(st, (ast.If, ast.While)):
+            heads = [st.test]
+        elif isinstance(st, ast.For):
+            return False
+        elif isinstance(st, (ast.With, ast.Try, ast.FunctionDef, ast.ClassDef)):
+            return False
+        n_here = sum(1 for h in heads for n in ast.walk(h) if isinstance(n, ast.Name) and n.id == x and isinstance(n.ctx, ast.Load))
+        if n_here != 1:
+            return False
+        for h in heads:
+            for n in ast.walk(h):
+                if isinstance(n, (ast.Lambda, ast.ListComp, ast.SetComp, ast.DictComp, ast.GeneratorExp)):
+                    if any(isinstance(m, ast.Name) and m.id == x for m in ast.walk(n)):
+                        return False
+        return True
+
+    def block(stmts):
+        stmts = list(stmts)
+        i = 0
+        while i < len(stmts) - 1:
+            st, nxt = stmts[i], stmts[i + 1]
+            if isinstance(st, ast.Assign) and len(st.targets) == 1 and isinstance(st.targets[0], ast.Name):
+                x = st.targets[0].id
+                if stored.get(x) == 1 and loads.get(x) == 1 and x not in params and _pure_expr(st.value) \
+                        and x not in _names_loaded(st.value) and use_site_ok(nxt, x):
+                    if isinstance(nxt, (ast.If, ast.While)):
+                        nxt.test = _Subst({x: st.value}).visit(nxt.test)
+                    else:
+                        stmts[i + 1] = _Subst({x: st.value}).visit(nxt)
+                    del stmts[i]
+                    i = max(i - 1, 0)
+                    continue
+            i += 1
+        for st in stmts:
+            for f in ("body", "orelse", "finalbody"):
+                if hasattr(st, f) and isinstance(getattr(st, f), list) and getattr(st, f) \
+                        and not isinstance(st, (ast.FunctionDef, ast.ClassDef)):
+                    setattr(st, f, block(getattr(st, f)))
+            if isinstance(st, ast.Try):
+                for h in st.handlers:
+                    h.body = block(h.body)
+        return stmts
+    fn.body = block(fn.body)
+
+
+# the sets of rewritings tried, in this order, after the text as written (a stage stops at the first that works)
+READINGS = ["D", "DAC", "DACB", "DACE", "DACBE", "DACBF", "DACBEF"]
+LEVELS = len(READINGS)
+
+
+def normalize(tree, level=LEVELS):
+    rules = READINGS[level - 1] if isinstance(level, int) else level
     tree = copy.deepcopy(tree)
-    helpers = _helpers(tree)
+    if "D" in rules:
+        tree = _inline_constants(tree, _module_constants(tree))
+    helpers = _helpers(tree) if "A" in rules else {}
     if helpers:
         for _ in range(3):
             ie = _InlineExpr(helpers)
@@ -252,10 +399,18 @@ def normalize(tree):
             if not ie.used:
                 break
         tree.body = _inline_stmt_helpers(tree.body, helpers, [0])
-    tree.body = _continue_guards(tree.body, False)
-    for n in ast.walk(tree):
-        if isinstance(n, ast.FunctionDef):
-            _propagate_aliases(n)
+    if "C" in rules:
+        tree.body = _continue_guards(tree.body, False)
+    if "B" in rules:
+        for n in ast.walk(tree):
+            if isinstance(n, ast.FunctionDef):
+                _propagate_aliases(n)
+    if "F" in rules:
+        for n in ast.walk(tree):
+            if isinstance(n, ast.FunctionDef):
+                _inline_intermediates(n)
+    if "E" in rules:
+        tree = _IfExpAssign().visit(tree)
     ast.fix_missing_locations(tree)
     # give every node the text positions of a fresh parse of the normalised program
     return _REAL_PARSE(ast.unparse(tree))
@@ -263,12 +418,16 @@ def normalize(tree):
 
 class second_reading:
     """Context manager: inside it `ast.parse` returns the normalised tree (translators call ast.parse themselves)."""
+    def __init__(self, level=LEVELS):
+        self.level = level
+
     def __enter__(self):
         self._orig = ast.parse
+        level = self.level
 
         def parse(source, *a, **kw):
             t = _REAL_PARSE(source, *a, **kw)
-            return normalize(t) if isinstance(t, ast.Module) else t
+            return normalize(t, level) if isinstance(t, ast.Module) else t
         ast.parse = parse
         return self
 
